@@ -945,7 +945,6 @@ func c11Fixtures(c *eng.Ctx) {
 	}
 }
 
-
 // ---------------------------------------------------------------------------------------
 // Added after seeded changes C11-1 / C11-2.
 func c11Extra(c *eng.Ctx) {
